@@ -321,6 +321,46 @@ theorem multicast_suppression (cfg : Cfg) (rq : Request) (fl : Option Nat) (obs 
   cases fl <;> by_cases h2 : codeClass r.code > 2 <;> simp [h2]
 
 
+/-- a handler only ever runs as the handler registered, for the request's method, on the resource the request was mapped
+to, with the request's payload — in every other clause (all error replies, Reset, ignored messages) none runs -/
+theorem handler_only_when_registered (e : S.Esc) (cfg : Cfg) (tbl : Table) (rq : Request) (c : Call)
+    (h : (S.serverSpec e cfg tbl rq).call = some c) :
+    ∃ sel : Sel, sel.who = some c.who ∧ handlerBit sel.mask rq.msg.code = true ∧ c.code = rq.msg.code ∧
+      c.payload = rq.msg.payload := by
+  unfold S.serverSpec at h
+  simp only at h
+  repeat' split at h
+  all_goals try (simp [Outcome.outOfScope, Outcome.nothing] at h; done)
+  unfold S.handle at h
+  split at h
+  · simp [Outcome.nothing] at h
+  · unfold S.stages at h
+    simp only at h
+    split at h
+    · simp at h
+    · simp [Outcome.nothing] at h
+    · split at h
+      · simp at h
+      · split at h
+        · simp at h
+        · rename_i sel _ _ hck
+          unfold S.run at h
+          simp only at h
+          split at h
+          · simp at h
+          · rw [finish_call] at h
+            cases hw : sel.who with
+            | none => rw [hw] at h; simp at h
+            | some who =>
+              rw [hw] at h
+              simp only [Option.map, Option.some.injEq] at h
+              subst h
+              exact ⟨sel, hw, precond_none_handler hck, rfl, rfl⟩
+
+
+example : ∃ c, (S.serverSpec E ⟨false, 8, []⟩ ⟨none, none, [⟨[97], 1, 0, false⟩]⟩
+    ⟨false, ⟨0, 1, 7, [1], [(11, [97])], []⟩, ⟨69, []⟩, .absent⟩).call = some c := ⟨_, by decide⟩
+
 /-! ### non-vacuity: concrete requests meeting the hypotheses of the clause theorems -/
 def exCfg : Cfg := ⟨false, 8, []⟩
 /-- /a with GET and FETCH handlers -/
